@@ -42,6 +42,15 @@ def sstepElem : SStep → PElem
   | .up => { name := "..".toList }
   | .name n => { name := n }
 
+/-- where a path with the given root starts when it is written at the node `here` -/
+def rootBase (here : Path) : SRoot → Path
+  | .abs => { root := true }
+  | .cur => {}
+  | .rel => here
+
+/-- string-value of what the tree reports (the `invalid` test datum has none) -/
+def litOf (d : Datum) : Str := match d.toLit with | .ok s => s | .error _ => []
+
 def navReq (p : Path) : List String := ["Navigate(" ++ showPath p ++ ")", "GetValue(" ++ showPath p ++ ")"]
 
 /-- value and requests of one predicate operand; `here` = the path of the step the predicate is on -/
@@ -50,12 +59,9 @@ def operandValue (t : Tree) (here : Path) : Operand → Str × List String
   | .num x => (stringOfNumber x, [])
   | .scalar e => ((match eval true (fun _ => .emptyNodeset) e with | some v => stringOf v | none => []), [])
   | .path p =>
-    let base : Path := match p.root with
-      | .abs => { root := true }
-      | .cur => {}
-      | .rel => here
+    let base := rootBase here p.root
     let rp := { base with elems := base.elems ++ p.steps.map sstepElem }
-    ((match (t.value rp).toLit with | .ok s => s | .error _ => []), navReq rp)
+    (litOf (t.value rp), navReq rp)
 
 /-- attach the predicates of one step: requests in source order, keys as a map sorted by key name -/
 def stepKeys (t : Tree) (here : Path) : List (Str × Operand) → List (Str × Str) × List String
@@ -72,7 +78,7 @@ def walk (t : Tree) : Path → List Step → Path × List String
     let here := { p with elems := p.elems ++ [{ name := n }] }
     let (ks, rq) := stepKeys t here preds
     -- predicates in any order give the same key set: keys are kept sorted by name
-    let keyed : PElem := { name := n, keys := (ks.reverse.foldl (fun acc (k, v) => insertKey k v acc) []) }
+    let keyed : PElem := { name := n, keys := (ks.foldl (fun acc kv => insertKey kv.1 kv.2 acc) []) }
     let (final, rqs) := walk t { p with elems := p.elems ++ [keyed] } rest
     (final, rq ++ rqs)
 
